@@ -1035,6 +1035,15 @@ class EdgeQLSourceGenerator(codegen.SourceGenerator):
             self.write(' ')
             self.visit(node.ref)
 
+    def _ddl_visit_type_before_body(self, node: qlast.TypeExpr) -> None:
+        # A `{` right after `TYPEOF x` would be read as a shape on x.
+        parenthesize = isinstance(node, qlast.TypeOf)
+        if parenthesize:
+            self.write('(')
+        self.visit(node)
+        if parenthesize:
+            self.write(')')
+
     def _ddl_visit_bases(self, node: qlast.BasedOn) -> None:
         if node.bases:
             self._write_keywords(' EXTENDING ')
@@ -2081,7 +2090,7 @@ class EdgeQLSourceGenerator(codegen.SourceGenerator):
             if node.target is not None:
                 if isinstance(node.target, qlast.TypeExpr):
                     self.write(': ')
-                    self.visit(node.target)
+                    self._ddl_visit_type_before_body(node.target)
                 elif pure_computable:
                     # computable
                     self.write(' := (')
@@ -2459,7 +2468,7 @@ class EdgeQLSourceGenerator(codegen.SourceGenerator):
         if isinstance(node, qlast.CreateFunction):
             self.write(' -> ')
             self._write_keywords(node.returning_typemod.to_edgeql(), '')
-            self.visit(node.returning)
+            self._ddl_visit_type_before_body(node.returning)
 
         if node.commands:
             self.write(' {')
@@ -2663,7 +2672,7 @@ class EdgeQLSourceGenerator(codegen.SourceGenerator):
             if node.target is not None:
                 if isinstance(node.target, qlast.TypeExpr):
                     self.write(' -> ')
-                    self.visit(node.target)
+                    self._ddl_visit_type_before_body(node.target)
                 elif pure_computable:
                     # computable
                     self.write(' := (')
